@@ -308,5 +308,7 @@ theorem tie_number_to_bit_other (v L : PV) (fuel : Nat) (h1 : ∀ s, v ≠ .str 
   | bool b => rfl
   | none => rfl
   | arr l => rfl
+  | set l => rfl
+  | dict ks vs => rfl
 
 end Dsw.Tie
